@@ -2689,6 +2689,16 @@ def transform_compressible(items, constants, labels):
                 return False
         return inner
 
+    # the target of a pc-relative immediate is normally a label that moves along with the code; an
+    # absolute target (a constant) stays put while the instruction still moves toward 0 as earlier
+    # items shrink, so its offset must also fit when seen from the very start
+    def AbsoluteTargetStaysBelow(hi):
+        def inner(i, p, e):
+            if isinstance(i.imm, Offset) and i.imm.reference in constants:
+                return i.imm.eval(0, e, i.line) <= hi
+            return True
+        return inner
+
     criteria = {
         # this has to be first since it collides with c.addi
         'c.addi16sp': [
@@ -2746,6 +2756,7 @@ def transform_compressible(items, constants, labels):
             RegEquals('rd', 1),
             ImmDivisibleBy(2),
             ImmBetween(-2**10 * 2, 2**10 * 2 - 1),
+            AbsoluteTargetStaysBelow(2**10 * 2 - 1),
         ],
         'c.li': [
             NameEquals('addi'),
@@ -2828,6 +2839,7 @@ def transform_compressible(items, constants, labels):
             RegEquals('rd', 0),
             ImmDivisibleBy(2),
             ImmBetween(-2**10 * 2, 2**10 * 2 - 1),
+            AbsoluteTargetStaysBelow(2**10 * 2 - 1),
         ],
         'c.beqz': [
             NameEquals('beq'),
@@ -2835,6 +2847,7 @@ def transform_compressible(items, constants, labels):
             RegEquals('rs2', 0),
             ImmDivisibleBy(2),
             ImmBetween(-2**7 * 2, 2**7 * 2 - 1),
+            AbsoluteTargetStaysBelow(2**7 * 2 - 1),
         ],
         'c.bnez': [
             NameEquals('bne'),
@@ -2842,6 +2855,7 @@ def transform_compressible(items, constants, labels):
             RegEquals('rs2', 0),
             ImmDivisibleBy(2),
             ImmBetween(-2**7 * 2, 2**7 * 2 - 1),
+            AbsoluteTargetStaysBelow(2**7 * 2 - 1),
         ],
         'c.slli': [
             NameEquals('slli'),
@@ -3120,7 +3134,9 @@ def transform_pseudo_instructions(items, constants, labels):
             env = ChainMap(constants, labels)
             value = imm.eval(position, env, item.line)
             value = c_int32(value).value  # signed imm
-            if value >= (-2**20) and value <= (2**20 - 1):
+            # an absolute target (a constant) does not move while this call still moves toward 0
+            worst = c_int32(imm.eval(0, env, item.line)).value if reference in constants else value
+            if value >= (-2**20) and max(value, worst) <= (2**20 - 1):
                 inst = JTypeInstruction(item.line, 'jal', rd='x1', imm=imm)
                 # shrink all subsequent labels by 4
                 new_labels = {k: v - 4 for k, v in labels.items() if v > position}
@@ -3141,7 +3157,9 @@ def transform_pseudo_instructions(items, constants, labels):
             env = ChainMap(constants, labels)
             value = imm.eval(position, env, item.line)
             value = c_int32(value).value  # signed imm
-            if value >= (-2**20) and value <= (2**20 - 1):
+            # an absolute target (a constant) does not move while this jump still moves toward 0
+            worst = c_int32(imm.eval(0, env, item.line)).value if reference in constants else value
+            if value >= (-2**20) and max(value, worst) <= (2**20 - 1):
                 inst = JTypeInstruction(item.line, 'jal', rd='x0', imm=imm)
                 # shrink all subsequent labels by 4
                 new_labels = {k: v - 4 for k, v in labels.items() if v > position}
